@@ -388,6 +388,19 @@ class Ctx:
         builds = self.compile_many([dict(name=s["name"], src=s["src"], flavour=s["flavour"],
                                          defines=tuple(s.get("defines", ())), cuda_shim=s.get("cuda_shim", False),
                                          is_text=s.get("is_text", False)) for s in shards])
+        # a shard that does not compile is split into its parts (if it declares any): the parts that
+        # compile are still executed, the others are reported individually as not-executable
+        extra = []
+        for s, b in zip(list(shards), list(builds)):
+            if not b.ok and s.get("split") and not any(b.name in h for h in self.harness_errors):
+                extra += s["split"]
+        if extra:
+            xb = self.compile_many([dict(name=s["name"], src=s["src"], flavour=s["flavour"],
+                                         defines=tuple(s.get("defines", ())), cuda_shim=s.get("cuda_shim", False),
+                                         is_text=s.get("is_text", False)) for s in extra])
+            keep = [(s, b) for s, b in zip(shards, builds) if b.ok or not s.get("split")]
+            shards = [s for s, _ in keep] + extra
+            builds = [b for _, b in keep] + xb
         items, idx = [], []
         for i, (s, b) in enumerate(zip(shards, builds)):
             if not b.ok:
